@@ -38,6 +38,8 @@ def norm_format(fmt, what):
             items += [(0, 0)] * cnt
         elif c in "LI":
             items += [(1, 0)] * cnt
+        elif c == "B":
+            items += [(4, 0)] * cnt
         else:
             raise Unextractable(f"{what}: unsupported format character {c!r} in {fmt!r}")
     if "".join(f"{n}{c}" for n, c in re.findall(r"(\d*)([A-Za-z?])", fmt[1:])) != fmt[1:]:
@@ -116,8 +118,45 @@ def regen():
     A("Definition g_family_table : list (N * (N * N * N)) := [" + "; ".join(
         f"({r['socc']}, ({int(r['ele'])}, {r['cnt']}, {int(r['pss'])}))" for r in fams) + "].")
     text = "\n".join(L) + "\n"
+    vlib.write_if_changed(os.path.join(vlib.COQ, "Gen", "GenDatV2.v"), gen_v2(S.get("v2")))
     vlib.write_if_changed(os.path.join(vlib.COQ, "Gen", "GenDat.v"), text)
     return {"db": db}
+
+
+CURVE_BITS = {"secp256r1": 256, "secp384r1": 384, "secp521r1": 521}
+
+
+def gen_v2(V):
+    """EdgeLock container version 2 (AHAB certificate, SRK record v2, SRK data, signature container) -> Gen/GenDatV2.v"""
+    if not V:
+        raise Unextractable("no container-v2 facts delivered by the implementation runner")
+    L = ["(* GENERATED on every run by tools/regen_c15.py from what spsdk/image/ahab/{ahab_certificate,ahab_srk,ahab_signature}.py "
+         "compute -- do not edit.\n   format items: (0,0) u16 | (1,0) u32 | (2,n) n bytes | (4,0) u8 *)",
+         "From Coq Require Import ZArith NArith List.\nImport ListNotations.\nLocal Open Scope N_scope.\n"]
+    for name in ("cert", "rec", "data", "sig"):
+        fmt, size, tag, ver = V[name]
+        L.append(f"Definition g_v2_{name}_fmt : list (N * N) := {pl(norm_format(fmt, 'v2 ' + name))}.")
+        L.append(f"Definition g_v2_{name}_size : N := {int(size)}.")
+        L.append(f"Definition g_v2_{name}_tag : N := {int(tag)}.")
+        if name == "rec":
+            L.append(f"Definition g_v2_rec_versions : list N := {nl(ver)}.")
+        else:
+            L.append(f"Definition g_v2_{name}_version : N := {int(ver)}.")
+    L.append(f"Definition g_v2_perm_debug : N := {int(V['perm_debug'])}.")
+    L.append(f"Definition g_v2_perm_data_size : N := {int(V['perm_data_size'])}.")
+    L.append(f"Definition g_v2_uuid_size : N := {int(V['uuid_size'])}.")
+    L.append(f"Definition g_v2_params_len : N := {int(V['params_len'])}.")
+    L.append(f"Definition g_v2_algs : list N := {nl(V['algs'])}.")
+    L.append(f"Definition g_v2_hashes : list N := {nl(V['hashes'])}.")
+    ks = sorted((int(k), v) for k, v in V["key_sizes"].items())
+    L.append("Definition g_v2_key_sizes : list (N * (N * N)) := [" + "; ".join(f"({k}, ({a}, {b}))" for k, (a, b) in ks) + "].")
+    try:
+        ecc = sorted((CURVE_BITS[k], v) for k, v in V["ecc_type"].items())
+    except KeyError as ex:
+        raise Unextractable(f"unknown curve {ex}") from ex
+    L.append(f"Definition g_v2_ecc_type : list (N * N) := {pl(ecc)}.")
+    L.append(f"Definition g_v2_rsa_type : list (N * N) := {pl(sorted((int(k), v) for k, v in V['rsa_type'].items()))}.")
+    return "\n".join(L) + "\n"
 
 
 if __name__ == "__main__":
